@@ -14,7 +14,10 @@ func VxTcThread() {
 	kind, cores, max := vxGet("kind"), vxGet("cores"), vxGet("max")
 	vxCmdFree(false, false)
 	wf := newWorkflowWithoutLogging("w", max)
-	vxAssert(cap(wf.concurrentTasks) == max, "C06.capacity-is-maxConcurrentTasks")
+	// the slot semaphore is the (only) channel field of the workflow; it and the mutexes are
+	// found structurally so that the harness does not depend on unexported field names
+	slots := vxFieldChan(wf, 0)
+	vxAssert(vxChanCap(slots) == max, "C06.capacity-is-maxConcurrentTasks")
 	pat := "vcmd w:{o:out}"
 	if kind == 2 {
 		pat = "vcmd x:{os:out}"
@@ -27,8 +30,8 @@ func VxTcThread() {
 	}
 	t := NewTask(wf, p, "p", p.CommandPattern, map[string]*FileIP{}, p.PathFuncs, p.PortInfo,
 		map[string]string{}, map[string]string{}, "", nil, p.CoresPerTask)
-	vxTraceChan(wf.concurrentTasks)
-	vxTraceMutex(&wf.concurrentTasksMx)
+	vxTraceChan(slots)
+	vxTraceMutex(nil)
 	kindRun := vxRun(func() {
 		go t.Execute()
 		<-t.Done
@@ -89,7 +92,7 @@ func VxH06run() {
 	vxAssert(kind == "returned", "C07.no-deadlock")
 	vxReach("ran")
 	vxAssert(vxInvCount() == n, "C06.all-tasks-ran")
-	vxAssert(len(wf.concurrentTasks) == 0, "C06.all-slots-returned")
+	vxAssert(vxChanLen(vxFieldChan(wf, 0)) == 0, "C06.all-slots-returned")
 }
 
 // VxH07proc: k ready tasks of ONE process (real Workflow.Run / Process.Run) on a workflow
